@@ -265,6 +265,9 @@ var solvePar int
 // machine does not turn a provable obligation into an alarm. A decided result (sat / unsat) is never
 // retried: a refuted obligation stays refuted.
 func retryUndecided(frs []*FuncResult, timeoutS int, tmpdir string) {
+	if os.Getenv("GOVC_NO_RETRY") != "" {
+		return // must-fail corpus runs: an undecided obligation already counts as caught
+	}
 	n := 0
 	for _, fr := range frs {
 		for i := range fr.Obls {
